@@ -364,6 +364,21 @@ Theorem C13_local_monotone : forall m n now,
 Proof. exact local_monotone. Qed.
 Print Assumptions C13_local_monotone.
 
+(* --- mock.go: MockOracle.GetTimestamp (serialised by its mutex): strictly increasing while clock+offset does not go
+       back and fewer than 2^18 calls fall into one millisecond --- *)
+Theorem C13_mock_monotone : forall last now,
+  0 <= last -> extract_physical last <= now -> now < two45 -> extract_logical last + 1 < two18 ->
+  last < mock_get_ts last now /\ extract_physical (mock_get_ts last now) = now.
+Proof. exact mock_monotone. Qed.
+Print Assumptions C13_mock_monotone.
+
+(* --- local_external_timestamp.go (local and mock oracle), one call at a time: an accepted external timestamp is the
+       requested one, never below the previous one and never beyond the oracle's current timestamp --- *)
+Theorem C13_external_ts_call_level : forall ext cur nw e,
+  set_external ext cur nw = Some e -> e = nw /\ ext <= e <= cur.
+Proof. exact set_external_spec. Qed.
+Print Assumptions C13_external_ts_call_level.
+
 (* --- non-vacuity --- *)
 Example ex_compose : compose_ts 1700000000000 5 = 445644800000000005 /\ extract_physical 445644800000000005 = 1700000000000.
 Proof. vm_compute. split; reflexivity. Qed.
